@@ -1,8 +1,31 @@
 """C03  Domain names: text and wire forms correspond; 63/255-octet limits enforced.
 
 MC      MC_Names: Names.tla on itself with MaxLabel=2/MaxName=8 (limits reached and crossed)
-GEN     Gen_Names modes strings / shapes / octets (real limits) -> harness `names replay`
-TV      harness `names record c03` (random wire names, pointers) -> Trace_Names
+GEN     Gen_Names (real limits) -> harness `names replay`; the expected values are TLC's:
+          strings   every text of <= N symbols over {a A 0 . \\ space \\200 \\.}: IsFqdn, IsDomainName, PackDomainName
+                    (accept + octets), the compressed sequence parent/name/name over one map          [mutant at-not-special]
+          shapes    label-length vectors over {1,2,61..65}, at most 6 labels, wire length 250..260, four fill
+                    octets: UnpackDomainName / IsDomainName / PackDomainName on the limits          [mutants label64, budget-lt]
+          octets    256 octet values x 3 positions, in the spelling the library writes
+          spell     256 octet values x 3 positions x the 3 spellings a TEXT may use (the octet itself, \\c, \\DDD),
+                    whether or not the library writes that one: text -> octets through Parse          [seed C03-16: \\046, \\092]
+          spellshapes  a label / a name just inside and just beyond the limits (label 61..65, wire 251..258) with every
+                    octet in one spelling, or raw / \\c / \\DDD in turn, for the fills a @ 0 . \\ 0xc8: an octet counts once
+                    however many characters spell it                  [mutant isdn-ddd-printable; seed C03-17's neighbour]
+          escapes   every text of <= N symbols over {a 0 . \\ \\046 \\092 \\048 \\\\ \\.}: the \\DDD spelling of an octet
+                    that is also syntax, next to that syntax ('\\092.' must not swallow the dot)     [seed C03-16]
+          crowd     names at and around the maximal label COUNT: 127-N..127+N labels of one octet, up to 2N of them
+                    of two, wire length 250..260, five fills - the count and the octet limit are reached together
+                    only here (shapes has <= 6 labels)                                              [seed C03-18]
+TV      harness `names record c03` -> Trace_Names (TLC judges each event)
+          unpack    random wire names (1 in 16 of the long ones crowded: one-octet labels as many as fit), some
+                    through a pointer; the text is given back to IsDomainName and PackDomainName
+          respell   every fourth event: such a name written in a random mix of raw / \\c / \\DDD spellings,
+                    packed and judged by IsDomainName; RespellOK compares with Parse + EncName       [seeds C03-16, C03-18]
+Mutants (checks/mutants/C03): at-not-special, budget-lt, label64 as above; pack-ddd-special (the packer refuses \\046 and
+\\092: spell, escapes, respell), isdn-ddd-printable (IsDomainName counts a \\DDD-spelled printable octet four times:
+spellshapes, respell), unpack-label-cap (UnpackDomainName refuses more than 126 labels: crowd, unpack events; the
+repository's own tests see that one too).
 """
 import os, json
 import vp
@@ -10,7 +33,8 @@ import vp
 SMALL = {"Alpha": "{0, 46, 65, 92}", "StrLen": 5}
 
 
-def gen(ctx, binp, mode, n, nshards, shards):
+def gen_jobs(ctx, binp, mode, n, nshards, shards):
+    """One callable per shard: TLC writes the vectors of the shard, the harness replays them."""
     def one(sh):
         r, vecs = ctx.tlc_vectors("Gen_Names", workers=1, xmx="3g", timeout=3000,
                                   consts={"Mode": '"%s"' % mode, "N": n, "Shard": sh, "NShards": nshards})
@@ -19,10 +43,15 @@ def gen(ctx, binp, mode, n, nshards, shards):
             return
         s = ctx.run_json(binp, ["replay", path])
         vp.absorb(ctx, s)
-    vp.parallel([lambda sh=sh: one(sh) for sh in shards])
+    return [lambda sh=sh: one(sh) for sh in shards]
 
 
-def tv(ctx, binp, which, n, nproc):
+def gen(ctx, binp, mode, n, nshards, shards):
+    vp.parallel(gen_jobs(ctx, binp, mode, n, nshards, shards))
+
+
+def tv_jobs(ctx, binp, which, n, nproc):
+    """One callable per recorder: the harness records n events, TLC judges them."""
     def one(k):
         out = os.path.join(ctx.out, "trace-%s-%d.ndjson" % (which, k))
         s = ctx.run_json(binp, ["record", which, out, str(n)], env={"VERIF_SEED": str(ctx.seed * 1000 + k)})
@@ -30,7 +59,14 @@ def tv(ctx, binp, which, n, nproc):
         tr = ctx.tlc_trace("Trace_Names", out, xmx="3g", timeout=3000)
         evs = vp.read_ndjson(out)
         vp.absorb_trace(ctx, tr, evs, lambda e: "names/trace:" + e["ev"])
-    vp.parallel([lambda k=k: one(k) for k in range(nproc)])
+    return [lambda k=k: one(k) for k in range(nproc)]
+
+
+def tv(ctx, binp, which, n, nproc):
+    vp.parallel(tv_jobs(ctx, binp, which, n, nproc))
+
+
+QUICK_PAR = 4     # JVMs of one quick run at a time (what the widest stage took when the stages ran one after the other)
 
 
 def confirm_with(binp):
@@ -42,24 +78,36 @@ def confirm_with(binp):
 def run(ctx):
     binp = ctx.build("names")
     if ctx.quick:
-        ctx.tlc("MC_Names", consts=SMALL, timeout=900)
-        gen(ctx, binp, "strings", 4, 1, [0])
-        gen(ctx, binp, "shapes", 0, 16, [ctx.seed % 16])
-        gen(ctx, binp, "octets", 0, 1, [0])
-        tv(ctx, binp, "c03", 1500, 2)
+        # the stages are independent of each other: one pool, the long ones first
+        jobs = [lambda: ctx.tlc("MC_Names", consts=SMALL, timeout=900)]
+        jobs += gen_jobs(ctx, binp, "shapes", 0, 16, [ctx.seed % 16])
+        jobs += tv_jobs(ctx, binp, "c03", 1600, 2)
+        jobs += gen_jobs(ctx, binp, "spellshapes", 0, 1, [0])
+        jobs += gen_jobs(ctx, binp, "escapes", 4, 1, [0])
+        jobs += gen_jobs(ctx, binp, "strings", 4, 1, [0])
+        jobs += gen_jobs(ctx, binp, "spell", 0, 1, [0])
+        jobs += gen_jobs(ctx, binp, "crowd", 2, 1, [0])
+        jobs += gen_jobs(ctx, binp, "octets", 0, 1, [0])
+        vp.parallel(jobs, maxpar=QUICK_PAR)
     else:
         ctx.tlc("MC_Names", timeout=1800)
         gen(ctx, binp, "strings", 6, 16, range(16))
         gen(ctx, binp, "shapes", 0, 16, range(16))
         gen(ctx, binp, "octets", 0, 1, [0])
+        gen(ctx, binp, "spell", 0, 1, [0])
+        gen(ctx, binp, "spellshapes", 0, 1, [0])
+        gen(ctx, binp, "escapes", 6, 16, range(16))
+        gen(ctx, binp, "crowd", 8, 4, range(4))
         tv(ctx, binp, "c03", 4000, 16)
     ctx.assumptions += [
         "texts with \\DDD > 255 (undefined in RFC 1035) are outside the universe; a backslash before a digit that does not start three digits is read as that digit",
         "the empty string is not a name (PackDomainName documents it as 'no name')",
     ]
-    return ctx.finish(rule="vectors: every text over 8 symbols (a A 0 . \\ space \\200 \\.) up to N symbols; every label-length "
-                      "vector over {1,2,61..65} with wire length 250..260 x 3 fill octets; 256 octets x 3 positions; events: random wire "
-                      "names incl. pointers. distinct = distinct texts / wire strings; non-trivial = inside RFC 1035 (st # undef)")
+    return ctx.finish(rule="vectors: every text over 8 symbols (a A 0 . \\ space \\200 \\.) and over 9 escape symbols (a 0 . \\ \\046 \\092 "
+                      "\\048 \\\\ \\.) up to N symbols; 256 octets x 3 positions x 3 spellings (raw, \\c, \\DDD); 30 boundary shapes x 18 fill/spelling combinations; every label-length "
+                      "vector over {1,2,61..65} with wire length 250..260 x 4 fill octets; names of 127-N..127+N labels of 1-2 octets "
+                      "with wire length 250..260 x 5 fills; events: random wire names incl. pointers and crowded ones, random "
+                      "respellings of their text. distinct = distinct texts / wire strings; non-trivial = inside RFC 1035 (st # undef)")
 
 
 def replay(ctx, path):
@@ -67,8 +115,15 @@ def replay(ctx, path):
     rp = json.load(open(path))
     case = rp["case"]
     if "event" in case:
-        tr = ctx.tlc_trace("Trace_Names", [case["event"]])
-        bad = bool(tr.bad) or not tr.accepted
+        # the inputs of the recorded event through the real code again, the new event judged by TLC
+        pin, pout = os.path.join(ctx.out, "event.ndjson"), os.path.join(ctx.out, "event-rerun.ndjson")
+        vp.write_ndjson(pin, [case["event"]])
+        s = ctx.run_json(binp, ["rerun", pin, pout])
+        bad = bool(s["mismatches"])      # a panic
+        evs = vp.read_ndjson(pout)
+        if evs:
+            tr = ctx.tlc_trace("Trace_Names", evs)
+            bad = bad or bool(tr.bad) or not tr.accepted
     else:
         p = os.path.join(ctx.out, "one.ndjson")
         vp.write_ndjson(p, [case])
